@@ -7,15 +7,17 @@ PID = "C05"
 META = {
     "level": "fault_enumeration",
     "text": "For representative write transactions on a file-backed database (create with index updates, delete with a "
-            "referential-integrity cascade, rename, recycle-bin reap, and in the thorough tier OAuth2 client / domain / schema "
-            "changes) a dry run counts the SQLite write, COMMIT and post-COMMIT points; for every point a forked child "
+            "referential-integrity cascade, a full reindex = purge and rebuild of every index table inside one transaction, "
+            "and in the thorough tier rename, recycle-bin reap, OAuth2 client / domain changes and a schema change that "
+            "reindexes at commit) a dry run counts the SQLite write, COMMIT and post-COMMIT points; for every point a forked child "
             "process arms the H2 injector in crash mode (abort() at that point) and runs the transaction; the parent reopens "
-            "the file and records the complete stored state, the restarted server's verify(), and the identifier stamped "
+            "the file and records the complete stored state (entries with change ids, entry count, ts_max, lookup answers, and "
+            "the index state: which idx tables exist and how many keys / ids they hold), the restarted server's verify(), and the identifier stamped "
             "by a probe write made with the clock set back. TLC judges each record: stored state is exactly the before or "
             "the after state, verify() is empty, the new identifier is above every identifier found in the database.",
     "note": "process-kill crashes only (abort() in a child process): SQLite's WAL durability under OS / power failure is "
             "trusted, as is TLC and the H2 injector; transactions with more than 150 points are sampled (every k-th point, "
-            "the first 8 and the last 4); replication apply is not among the transactions exercised.",
+            "the first 8, the last 4, and the first and last occurrence of every point name); restore and replication apply are not among the transactions exercised.",
     "design_ref": "DESIGN.md section 6, C05",
     "technique": "crash-point enumeration in forked child processes through hook H2, recovered state judged by a TLC trace spec "
                  "(before-or-after, verify, identifier monotonicity); commit-step model checked by TLC",
@@ -35,9 +37,11 @@ def run(tier, replay):
     if replay:
         lib.kverif("txn", ["c05", "--out", obs, "--replay", replay, "--db", db], timeout=3000)
     elif quick:
-        lib.kverif("txn", ["c05", "--out", obs, "--db", db, "--kinds", "create,delete"], timeout=3000)
+        # reindex = a transaction that drops and rebuilds every index table (about 2 000 storage points: sampled)
+        lib.kverif("txn", ["c05", "--out", obs, "--db", db, "--kinds", "create,delete,reindex", "--stride", 500],
+                   timeout=3000)
     else:
-        lib.kverif("txn", ["c05", "--out", obs, "--db", db, "--kinds", "create,modify,delete,reap,acp,oauth2,domain,schema",
+        lib.kverif("txn", ["c05", "--out", obs, "--db", db, "--kinds", "create,modify,delete,reap,acp,oauth2,domain,reindex,schema",
                            "--stride", 80], timeout=6000)
     txn_common.cleanup(db)
     tv = lib.trace_validate("KTxnCrashTrace", obs, PID, cfg="KTxnCrashTrace" + sfx, timeout=1500)
